@@ -91,6 +91,16 @@ class Mixed(Expr):
 
 
 @dataclass(frozen=True)
+class MixedR(Expr):
+    """same child field names and kinds as Mixed, declared in another order"""
+
+    items: tuple[Expr, ...]
+    z: Expr
+    a: Expr | None = None
+    name: str = ""
+
+
+@dataclass(frozen=True)
 class Falsy(Expr):
     """A node that is False in a boolean context."""
 
@@ -135,6 +145,18 @@ class PropZoo(Expr):
 
 
 @dataclass(frozen=True)
+class Picky(Expr):
+    """a node class with its own validation: construction with v == 13 raises its own error"""
+
+    v: int = 0
+
+    def __post_init__(self) -> None:
+        if self.v == 13:
+            raise RuntimeError("unlucky")
+        super().__post_init__()
+
+
+@dataclass(frozen=True)
 class Two(Expr):
     """two adjacent string properties (target of separator-splice attacks on the digest framing)"""
 
@@ -154,11 +176,13 @@ CHILD_FIELDS: dict[type, list[tuple[str, bool]]] = {
     Tup: [("items", True)],
     Fix2: [("pair", True)],
     Mixed: [("z", False), ("items", True), ("a", False)],
+    MixedR: [("items", True), ("z", False), ("a", False)],
     Falsy: [],
     FalsyKid: [("c", False), ("items", True)],
     Names: [("child", False), ("root", False), ("items", True)],
     PropZoo: [],
     Two: [],
+    Picky: [],
 }
 ALL_CLASSES = list(CHILD_FIELDS)
 LEAF_CLASSES = [Leaf, Leaf2, Falsy, PropZoo, Two]
@@ -311,9 +335,12 @@ class Gen:
             n = Tup(subs(b), origin=o)
         elif k < 0.7:
             n = Fix2((Leaf(v=r.randint(0, 3), origin=self.origin()), sub(b)), origin=o)
-        elif k < 0.82:
+        elif k < 0.77:
             n = Mixed(sub(b // 3), subs(b // 3), sub(b // 3) if r.random() < 0.6 else None,
                       name=gen_str(r), origin=o)
+        elif k < 0.82:
+            n = MixedR(subs(b // 3), sub(b // 3), sub(b // 3) if r.random() < 0.6 else None,
+                       name=gen_str(r), origin=o)
         elif k < 0.9 and self.falsy:
             n = FalsyKid(sub(b // 2) if r.random() < 0.7 else None, subs(b // 2), origin=o)
         else:
